@@ -2,6 +2,7 @@ package sim
 
 import (
 	"context"
+	"errors"
 	"fmt"
 	"io"
 	"os"
@@ -10,6 +11,7 @@ import (
 	"sync/atomic"
 	"testing"
 
+	"github.com/attestantio/dirk/core"
 	"github.com/attestantio/dirk/rules"
 	standardrules "github.com/attestantio/dirk/rules/standard"
 	"github.com/attestantio/dirk/services/accountmanager"
@@ -32,6 +34,7 @@ import (
 	localunlocker "github.com/attestantio/dirk/services/unlocker/local"
 	"github.com/attestantio/dirk/services/walletmanager"
 	standardwalletmanager "github.com/attestantio/dirk/services/walletmanager/standard"
+	"github.com/herumi/bls-eth-go-binary/bls"
 	"github.com/rs/zerolog"
 	zerologger "github.com/rs/zerolog/log"
 	e2wtypes "github.com/wealdtech/go-eth2-wallet-types/v2"
@@ -64,6 +67,8 @@ type InstCfg struct {
 	PeriodicPruning bool
 	// Process, when set, is built by the caller (W2); W1 uses none.
 	MakeProcess func(inst *Instance) (process.Service, error)
+	// AccountManager: build the account and wallet managers although the instance has no generation process.
+	AccountManager bool
 	// NoAccountPassphrases: the unlocker is configured without account passphrases (accounts are unlocked by hand).
 	NoAccountPassphrases bool
 }
@@ -159,6 +164,9 @@ func NewInstance(s *Sched, name string, cfg InstCfg) (*Instance, error) {
 		inst.Fetcher = mf
 		if cfg.Pop.Shared {
 			for _, a := range cfg.Pop.Accts {
+				if a.Batched {
+					continue
+				}
 				_, acc, err := mf.FetchAccount(ctx, a.Path)
 				if err != nil {
 					return fail(err)
@@ -171,7 +179,7 @@ func NewInstance(s *Sched, name string, cfg InstCfg) (*Instance, error) {
 		}
 	}
 	inst.FetcherW = &FetcherWrap{Service: fetcherSvc, s: s, inst: inst, plan: cfg.Plan, pop: cfg.Pop, wrap: map[e2wtypes.Account]e2wtypes.Account{}}
-	acctPass := []string{"pass"}
+	acctPass := []string{"pass", BatchPassphrase}
 	if cfg.NoAccountPassphrases {
 		acctPass = []string{}
 	}
@@ -199,11 +207,16 @@ func NewInstance(s *Sched, name string, cfg InstCfg) (*Instance, error) {
 		}
 		inst.Process = p
 	}
-	if inst.Process != nil {
+	amProcess := inst.Process
+	if amProcess == nil && cfg.AccountManager {
+		// lock and unlock requests never reach the process service
+		amProcess = noProcess{}
+	}
+	if amProcess != nil {
 		am, err := standardaccountmanager.New(ctx,
 			standardaccountmanager.WithUnlocker(unlockerW), standardaccountmanager.WithChecker(inst.Checker),
 			standardaccountmanager.WithFetcher(inst.FetcherW), standardaccountmanager.WithRuler(rulerSvc),
-			standardaccountmanager.WithProcess(inst.Process))
+			standardaccountmanager.WithProcess(amProcess))
 		if err != nil {
 			return fail(err)
 		}
@@ -214,10 +227,10 @@ func NewInstance(s *Sched, name string, cfg InstCfg) (*Instance, error) {
 			return fail(err)
 		}
 		inst.AcctMgr, inst.WalletMgr = am, wm
-		if inst.AcctH, err = accountmanagerhandler.New(ctx, accountmanagerhandler.WithAccountManager(am), accountmanagerhandler.WithProcess(inst.Process)); err != nil {
+		if inst.AcctH, err = accountmanagerhandler.New(ctx, accountmanagerhandler.WithAccountManager(am), accountmanagerhandler.WithProcess(amProcess)); err != nil {
 			return fail(err)
 		}
-		if inst.WalletH, err = walletmanagerhandler.New(ctx, walletmanagerhandler.WithWalletManager(wm), walletmanagerhandler.WithProcess(inst.Process)); err != nil {
+		if inst.WalletH, err = walletmanagerhandler.New(ctx, walletmanagerhandler.WithWalletManager(wm), walletmanagerhandler.WithProcess(amProcess)); err != nil {
 			return fail(err)
 		}
 	}
@@ -363,4 +376,24 @@ func CopyDir(src, dst string) error {
 		}
 	}
 	return nil
+}
+
+// noProcess stands where an instance without peers has no key-generation process: every call is refused.
+type noProcess struct{}
+
+var errNoProcess = errors.New("this instance runs no key-generation process")
+
+func (noProcess) OnPrepare(context.Context, uint64, string, []byte, uint32, []*core.Endpoint) error {
+	return errNoProcess
+}
+func (noProcess) OnExecute(context.Context, uint64, string) error { return errNoProcess }
+func (noProcess) OnCommit(context.Context, uint64, string, []byte) ([]byte, []byte, error) {
+	return nil, nil, errNoProcess
+}
+func (noProcess) OnAbort(context.Context, uint64, string) error { return errNoProcess }
+func (noProcess) OnGenerate(context.Context, *checker.Credentials, string, []byte, uint32, uint32) ([]byte, []*core.Endpoint, error) {
+	return nil, nil, errNoProcess
+}
+func (noProcess) OnContribute(context.Context, uint64, string, bls.SecretKey, []bls.PublicKey) (bls.SecretKey, []bls.PublicKey, error) {
+	return bls.SecretKey{}, nil, errNoProcess
 }
